@@ -36,7 +36,7 @@ E == Doc.events[r]
 R == RunOf(E)
 
 Init == r \in {k \in 1..Len(Doc.events) : "c17" \in ToSet(Doc.events[k].kinds)}
-        /\ CInit /\ l = 1 /\ p = 1 /\ q = 0 /\ rest = {}
+        /\ CInitWith(Doc.events[r].pre_out) /\ l = 1 /\ p = 1 /\ q = 0 /\ rest = {}
 
 MachineDone == pc \in {"done", "failed"}
 (* phase 1: let the specification run to completion (silent steps, bounded by the input) *)
@@ -91,6 +91,7 @@ Accepted ==
   /\ MachineDone /\ l = Len(E.events) + 1 /\ p = Len(printed) + 1
   /\ E.exit = 0 /\ ~E.panicked
   /\ (pc = "failed" => E.said_something)
+  /\ ((pc = "failed" /\ E.pre_out) => (archive = OldArchive /\ E.old_kept))    \* a failing run does not touch the old archive
   /\ ArchiveAgrees
   /\ E.k = (IF FailsAt(R) = "none" THEN GraphK(R) ELSE E.k)   \* the reference was computed with the same k
 
